@@ -27,7 +27,7 @@ MUTS = {
     "A2-revert-second-pass-in-normalize_hostname": ([(N, SECOND_HOST, "")], ["C07"]),
     "A3-second-pass-ignores-the-option": ([(N, SECOND_URL, '        hostname = re.sub(IRRELEVANT_SUBDOMAIN_AMP_RE, "", hostname)\n')], ["C05"]),
     "A4-second-pass-without-the-amp-label": ([(N, SECOND_URL, '        if strip_irrelevant_subdomains:\n            hostname = re.sub(IRRELEVANT_SUBDOMAIN_RE, "", hostname)\n')], ["C04", "C07"]),
-    "A5-second-pass-before-decoding": ([(N, '''        hostname = decode_punycode_hostname(hostname)
+    "A5-second-pass-before-decoding-EQUIVALENT": ([(N, '''        hostname = decode_punycode_hostname(hostname)
 
         # NOTE: what follows can also start with irrelevant subdomains
         if strip_irrelevant_subdomains:
@@ -36,7 +36,7 @@ MUTS = {
             hostname = re.sub(IRRELEVANT_SUBDOMAIN_AMP_RE, "", hostname)
 
         hostname = decode_punycode_hostname(hostname)
-''')], ["C05"]),
+''')], []),  # equivalent edit: no idna label decodes to an irrelevant label (ToUnicode round-trip check); expected: held
     "R1-prepared-minimal-patch-only": ([(I, '''    original_url = url
     url = CONTROL_CHARS_RE.sub("", url).strip()
 ''', '''    original_url = url
@@ -66,7 +66,7 @@ MUTS = {
     "R4-strip-only-no-control-characters": ([(I, '    url = CONTROL_CHARS_RE.sub("", url).strip()\n', "    url = url.strip()\n")], ["C04", "C15"]),
     "R5-control-characters-only-no-strip": ([(I, '    url = CONTROL_CHARS_RE.sub("", url).strip()\n', '    url = CONTROL_CHARS_RE.sub("", url)\n')], ["C04", "C15"]),
     "R6-value-error-returns-cleaned": ([(I, "                except ValueError:\n                    return original_url\n", "                except ValueError:\n                    return url\n")], ["C15"]),
-    # refactoring: must stay green
+    # refactoring / equivalent edits (empty check list): must stay green
     "H1-refactoring-clean-helper": ([(I, '''    original_url = url
     url = CONTROL_CHARS_RE.sub("", url).strip()
 ''', '''    original_url, url = url, CONTROL_CHARS_RE.sub("", url.strip()).strip()
